@@ -49,6 +49,9 @@ type Profile struct {
 	UniqueKeys bool // every key generated is unique within the program
 	MaxDepth   int
 	NoCtxIface bool
+	// UpdateAnywhere lets UpdateContext follow any chain step (only for linear chains: the statement of C05
+	// restricts it to loggers just produced by With() because of sharing between value copies)
+	UpdateAnywhere bool
 }
 
 // G is the generation state for one program.
@@ -68,7 +71,7 @@ var scalarKinds = []string{"Str", "Bytes", "Hex", "RawJSON", "RawCBOR", "Bool", 
 	"IPAddr", "IPPrefix", "MACAddr", "Stringer", "AnErr"}
 var sliceKinds = []string{"Strs", "Bools", "Ints", "Ints8", "Ints16", "Ints32", "Ints64", "Uints", "Uints8", "Uints16", "Uints32", "Uints64",
 	"Floats32", "Floats64", "Times", "Durs", "Errs", "Stringers"}
-var specialKinds = []string{"Err", "Timestamp", "TimeDiff", "Dict", "Array", "Object", "EmbedObject", "Func", "Fields", "Stack"}
+var specialKinds = []string{"Err", "Timestamp", "TimeDiff", "Dict", "Array", "Object", "EmbedObject", "Func", "Fields", "Stack", "Caller"}
 
 var (
 	evType  = reflect.TypeOf((*zerolog.Event)(nil))
@@ -87,7 +90,7 @@ func init() {
 		if has(evType, k) {
 			evKinds = append(evKinds, k)
 		}
-		if has(cxType, k) && k != "Timestamp" && k != "Stack" {
+		if has(cxType, k) && k != "Timestamp" && k != "Stack" && k != "Caller" {
 			cxKinds = append(cxKinds, k)
 		}
 	}
@@ -377,6 +380,13 @@ func (g *G) makeOp(fe int, rt reflect.Type, k string, depth int, stack *bool) *O
 	case "Stack":
 		*stack = true
 		return op
+	case "Caller":
+		// Event.Caller(): the field is added where the call stands; its text comes from CallerMarshalFunc
+		if g.S.CallerText == "" {
+			return nil
+		}
+		op.Out = []KVI{{g.S.CallerFieldName, Str(g.S.CallerText)}}
+		return op
 	case "TimeDiff":
 		op.HasKey, op.Key = true, g.NewKey()
 		t, st := g.V.Time(), g.V.Time()
@@ -454,14 +464,20 @@ func (g *G) makeOp(fe int, rt reflect.Type, k string, depth int, stack *bool) *O
 		return op
 	}
 	arg, in, present := g.scalar(k)
-	if (k == "Interface" || k == "Any") && !ctx && g.R.Chance(1, 8) {
+	if (k == "Interface" || k == "Any") && depth < g.P.MaxDepth && g.R.Chance(1, 8) {
 		// an Interface value that is a LogObjectMarshaler takes the Object route
 		g.Containers++
 		op.ObjMode = 0
-		op.Sub = g.subOps(FeObject, depth+1, stack)
+		if ctx {
+			cs := false
+			op.Sub = g.subOps(FeObject, depth+1, &cs)
+		} else {
+			op.Sub = g.subOps(FeObject, depth+1, stack)
+		}
 		op.Args = nil
 		op.Out = []KVI{{op.Key, Obj(outOf(op.Sub)...)}}
 		op.M = k + "#obj"
+		g.hit(fe, op.M)
 		return op
 	}
 	op.Args = []interface{}{arg}
@@ -513,6 +529,17 @@ func (g *G) elemOp(depth int) *Op {
 			op.Args = []interface{}{err}
 			op.Elem = in
 		case "Interface":
+			if depth < g.P.MaxDepth && g.R.Chance(1, 6) {
+				// an element that is a LogObjectMarshaler takes the Object route
+				g.Containers++
+				op.M = "Interface#obj"
+				g.hit(FeArray, op.M)
+				op.ObjMode = g.R.Intn(2)
+				ds := false
+				op.Sub = g.subOps(FeObject, depth+1, &ds)
+				op.Elem = Obj(outOf(op.Sub)...)
+				break
+			}
 			arg, in, _ := g.scalar(k)
 			op.Args = []interface{}{arg}
 			op.Elem = in
@@ -798,6 +825,10 @@ func (x *Exec) applyContext(c zerolog.Context, op *Op) zerolog.Context {
 		return c.EmbedObject(x.objArg(op))
 	case "Fields":
 		return c.Fields(x.fieldsArg(op))
+	case "Interface#obj":
+		return c.Interface(op.Key, x.objArg(op))
+	case "Any#obj":
+		return c.Any(op.Key, x.objArg(op))
 	}
 	m, _ := cxType.MethodByName(op.M)
 	var in []reflect.Value
@@ -821,6 +852,8 @@ func (x *Exec) applyArray(a *zerolog.Array, op *Op) *zerolog.Array {
 			d = x.applyEvent(d, s)
 		}
 		return a.Dict(d)
+	case "Interface#obj":
+		return a.Interface(x.objArg(op))
 	}
 	m, _ := arType.MethodByName(op.M)
 	in := append([]reflect.Value{reflect.ValueOf(a)}, rargs(m, 1, op.Args)...)
